@@ -1553,9 +1553,15 @@ class Data(BaseCartesianData):
             if np.asarray(data).shape != self.shape:
                 raise ValueError("Cannot change shape of data")
 
-        for comp, data in mapping.items():
+        # look up every component before replacing any values, so that an
+        # identifier this dataset does not have leaves the dataset as it was
+        components = []
+        for comp in mapping.keys():
             if isinstance(comp, ComponentID):
                 comp = self.get_component(comp)
+            components.append(comp)
+
+        for comp, data in zip(components, mapping.values()):
             comp._data = np.asarray(data)
 
         # listeners may evaluate masks as soon as they hear of the change
